@@ -18,8 +18,8 @@ CLAIMED = {
         ref="DESIGN.md §4 C05", thorough=True),
     "C14": dict(
         technique="static analysis: abstract interpretation of both sides of each Boolean-algebra law over order-only tokens, compared with the interpreted __eq__",
-        text="Specifier half decided completely within bounds: pair laws on all ordered pairs over K tokens (quick 3 / thorough 4), associativity and distributivity on all triples over K-1 tokens. Marker half ('up to equivalence'): both sides of every law are interpreted on seeded triples of level-0 atoms and their denotations compared (bounded sample); in general it is a corollary of C02's soundness clauses.",
-        note="trusts: as C01/C05; marker laws only on a bounded seeded sample. If the order-only lemma breaks (a version token is used other than by comparison) the check re-runs on concrete mixed-shape version pools and says so",
+        text="Specifier half decided completely within bounds: pair laws on all ordered pairs over K tokens (quick 3 / thorough 4), associativity and distributivity on all triples over K-1 tokens. Marker half ('up to equivalence'): both sides of every law are interpreted on every ordered triple over the atoms and ==/!= groups of one string variable and over a python_version family (exhaustive), and on seeded triples of level-0 atoms and their denotations compared (bounded sample); in general it is a corollary of C02's soundness clauses.",
+        note="trusts: as C01/C05; marker laws on one exhaustive same-variable family plus a bounded seeded sample. If the order-only lemma breaks (a version token is used other than by comparison) the check re-runs on concrete mixed-shape version pools and says so",
         ref="DESIGN.md §4 C14", thorough=True),
     "C19": dict(
         technique="static analysis: abstract interpretation of the GenericSpecifier case table over relation-class representative strings (saturated quotient), result denotation vs PEP 508 string-operator semantics",
@@ -27,7 +27,7 @@ CLAIMED = {
         note="trusts: PEP 508 string operator semantics; relation-only lemma (literals touched only through ==, in, <)",
         ref="DESIGN.md §4 C19", thorough=True),
     "C02": dict(
-        technique="static analysis: bounded abstract interpretation of the marker operators from source (packaging replaced by a PEP 440/508 model), denotations as bitmasks over an environment grid; plus syntax-directed polarity and discarded-result rules",
+        technique="static analysis: bounded abstract interpretation of the marker operators from source (packaging replaced by a PEP 440/508 model), denotations as bitmasks over an environment grid; plus a syntax-directed discarded-result rule (the syntactic polarity facts of `of` are advisory notes only)",
         text="Necessary conditions, bounded: all ordered pairs of a level-0 atom vocabulary (exhaustive), all atom-group pairs, a structured shared-child family and a seeded sample of compound pairs must evaluate as the conjunction/disjunction of the operands on every environment of the grid; Any/Empty identities; evaluate() of atoms and groups equals the PEP 508 meaning (incl. pre-/post-release interpreters); operators leave their operands unchanged; polarity facts of both `of` fix-points hold on all paths; no computed result is dropped. Arbitrary-depth trees, termination and the caches are NOT decided here.",
         note="trusts: vsa/pkgmodel.py (PEP 440 ordering / operator table) standing in for packaging; vocabulary of vsa/markexplore.py",
         ref="DESIGN.md §4 C02", thorough=True),
@@ -42,7 +42,7 @@ CLAIMED = {
         note="trusts: PEP 440/508 model; vocabulary bound",
         ref="DESIGN.md §4 C12", thorough=True),
     "C15": dict(
-        technique="static analysis: bounded abstract interpretation judging the shape of every returned marker against the normal form; syntax-directed rules on `of` exits and constructor flattening",
+        technique="static analysis: bounded abstract interpretation judging the shape of every returned marker against the normal form; the syntactic rules on `of` exits and constructor flattening are advisory notes only",
         text="Bounded: every result of &, |, only, exclude, without_extras, parse_marker(str(m)), parse_marker on generated texts (shared-child family, precedence forms) and the MultiMarker.of/MarkerUnion.of classmethods on shared-child compounds is empty, universal, an atom/atom group, or a compound with >= 2 distinct children none empty/universal/same-kind; plus all-path rules: `of` exits and polarity, each compound constructor flattens its own class. Arbitrary trees are not decided.",
         note="trusts: PEP 440/508 model; vocabulary bound",
         ref="DESIGN.md §4 C15", thorough=True),
@@ -58,7 +58,7 @@ CLAIMED = {
         ref="DESIGN.md §4 C09", thorough=False),
     "C16": dict(
         technique="static analysis: abstract interpretation of EnvSpec.compare / compatible_tags from source over a spec grid (order-theoretic laws, tag-set nesting) + symbolic residual form of _evaluate_python for requires_python monotonicity",
-        text="Over the grid (requires_python x 18 platforms x 4 implementations, all ordered pairs): compare is reflexive, INCOMPATIBLE symmetric, never HIGHER both ways, and LOWER_OR_EQUAL/HIGHER imply the interpreted tag sets are nested; every _evaluate_python residual uses requires_python only as a negative emptiness guard with an independent score (monotone given C01); tag sets are nested along consecutive releases of every family/architecture of C09's grid (evaluated in shuffled order and re-read at the end); on the concrete requires_python grid, widening never loses a tag triple.",
+        text="Over the grid (requires_python x 18 platforms x 4 implementations, all ordered pairs): compare is reflexive, INCOMPATIBLE symmetric, never HIGHER both ways, and LOWER_OR_EQUAL/HIGHER imply the interpreted tag sets are nested; every _evaluate_python residual uses requires_python only as a negative emptiness guard with an independent score (monotone given C01); tag sets are nested along consecutive releases of every family/architecture of C09's grid (evaluated in shuffled order and re-read at the end); on the concrete requires_python grid, widening never loses a tag triple; and on the dense release grid of every OS family/architecture (every ordered pair of releases, incl. macOS 10.16/11.0 and mid-year minors) compare obeys the same laws and agrees with tag-set nesting.",
         note="trusts: PEP 440 model; specifier algebra exactness (C01/C05)",
         ref="DESIGN.md §4 C16", thorough=True),
     "C18": dict(
@@ -93,7 +93,7 @@ CLAIMED = {
         ref="DESIGN.md §4 C03", thorough=True),
     "C10": dict(
         technique="static analysis: def-use / escape analysis over the AST of every memoised function (cache key = arguments' __eq__/__hash__) and of every attribute-store site",
-        text="All histories, by construction: inventory of every lru_cache/cache/cached_property; a memoised function with marker parameters must not return/embed or read state the key ignores (fields outside __eq__/__hash__); no attribute store on instances outside constructors and the lazy-cache idiom; string-keyed caches read only their argument; memoised functions do not render text from equality-keyed specifier arguments; no module-level container is written at call time in code reachable from the marker algebra; memoised values are not mutated in place; the _specifier cache field is seeded only by the bridge with its own argument. Five known findings (cnf/dnf/_merge_single_markers return their argument while MarkerExpression.reversed is outside the key). Whether a given history shows a difference is a run and is not decided.",
+        text="All histories, by construction: inventory of every lru_cache/cache/cached_property; a memoised function with marker parameters must not return/embed or read state the key ignores (fields outside __eq__/__hash__); no attribute store on instances outside constructors except the memoisation of a pure function of self (private attribute, value independent of the call's arguments, read nowhere else); string-keyed caches read only their argument; memoised functions do not render text from equality-keyed specifier arguments; no module-level container is written at call time in code reachable from the marker algebra; memoised values are not mutated in place; the _specifier cache field is seeded only by the bridge with its own argument and never copied by dataclasses.replace together with a changed compared field; caches created by a call (lru_cache(...)(fn)) are inventoried too. Nine known findings at five constructs (cnf/dnf/_merge_single_markers return their argument while MarkerExpression.reversed, and the element order of the ==/!= value sets, are outside the key). Whether a given history shows a difference is a run and is not decided.",
         note="trusts: functools.lru_cache keys by __hash__/__eq__",
         ref="DESIGN.md §4 C10", thorough=False),
     "C13": dict(
